@@ -12,6 +12,8 @@ CLIENT_ID = b"IOS02ac6d28-42d0-41e3-ad22-274d0aa491da"
 
 
 class SpaRig:
+    event_delay = None
+
     def __init__(self, world: World, snapshot="default.snapshot", sim_cls=None, tap=True):
         self.w = world
         from . import contracts
@@ -21,11 +23,16 @@ class SpaRig:
         path = snapshot if os.path.isabs(snapshot) else os.path.join(snapshot_dir(), snapshot)
         self.sim = SimHost(world.net, path, sim_cls=sim_cls)
         self.events = []
+        self.event_delay = None  # optional callable(event) -> seconds the client handler suspends
         self.spa = None
         self.taskman = None
 
     async def handle_event(self, event, **kw):
         self.events.append((event, self.w.now, kw))
+        if self.event_delay is not None:
+            d = self.event_delay(event)
+            if d is not None:
+                await asyncio.sleep(d)
 
     async def connect(self, background=False):
         from geckolib.async_spa import GeckoAsyncSpa
